@@ -10,7 +10,13 @@ EXTENDS RunRules, Targets, Dag, Plan, Sequences, SequencesExt, Json, IOUtils
 
 Rec == ndJsonDeserialize(IOEnv.TRACE)
 
-Req(r) == LET a == DepAdj(r.cfg) IN
+\* wide plans (hundreds of targets in one group): the dependency oracle over the configuration is not affordable in
+\* TLC, so the grouping `analyze --target-groups` printed is taken as the plan's grouping (its validity is C03's
+\* business, judged there) and everything else - coverage, order of groups and commands, truthfulness - is judged
+Trusting(r) == "trust" \in DOMAIN r /\ r.trust
+DepAdjOf(r) == IF Trusting(r) THEN [t \in TPaths(r.cfg) |-> {}] ELSE DepAdj(r.cfg)
+DepPairsOf(r) == IF Trusting(r) THEN {} ELSE DepPairs(r.cfg)
+Req(r) == LET a == DepAdjOf(r) IN
           CASE r.mode \in {"changed", "all"} -> RangeOf(r.pre.targets)
             [] r.mode = "targets"            -> RangeOf(r.named)
             [] r.mode = "targets_deps"       -> Closure(a, RangeOf(r.named))
@@ -22,7 +28,7 @@ GroupSetSeq(GG) == [ i \in DOMAIN GG |-> RangeOf(GroupTargets(GG[i])) ]
 NoDup(s) == Cardinality(RangeOf(s)) = Len(s)
 
 DocShapeWhy(r) ==
-  LET req == Req(r)  a == DepAdj(r.cfg) IN
+  LET req == Req(r)  a == DepAdjOf(r) IN
   IF ~r.doc.ok THEN "C06:run ended without a result document (fatal error)"
   ELSE IF Len(r.doc.results) # r.ncmd THEN "C05:result document does not list every command once"
   ELSE LET badc(c) ==
@@ -32,7 +38,7 @@ DocShapeWhy(r) ==
              IN IF \E i \in DOMAIN all : ~NoDup(all[i]) THEN "C05:target listed twice in a group"
                 ELSE IF \E i, j \in DOMAIN sets : i # j /\ sets[i] \cap sets[j] # {} THEN "C05:target listed in two groups"
                 ELSE IF UNION { sets[i] : i \in DOMAIN sets } # req THEN "C05:run does not cover exactly the selected targets"
-                ELSE IF IsGraph(r) /\ ~ValidLayering(a, req, sets) THEN "C05:run groups are not a dependency layering"
+                ELSE IF IsGraph(r) /\ ~Trusting(r) /\ ~ValidLayering(a, req, sets) THEN "C05:run groups are not a dependency layering"
                 ELSE IF r.mode \in {"changed", "all"} /\ sets # [ i \in DOMAIN r.pre.groups |-> RangeOf(r.pre.groups[i]) ]
                      THEN "C05:run groups differ from analyze --target-groups"
                 ELSE IF r.mode = "targets" /\ \E i \in DOMAIN sets : Cardinality(sets[i]) # 1 THEN "C05:explicit targets not run one at a time"
@@ -44,7 +50,7 @@ KindOf(r, k) == LET S == { x \in RangeOf(r.kinds) : x[1] = k[1] /\ x[2] = k[2] }
                 IF S = {} THEN "undef" ELSE (CHOOSE x \in S : TRUE)[3]
 PlanOf(r) ==
   LET req == Req(r) IN
-  [ncmd |-> r.ncmd, req |-> req, dep |-> DepPairs(r.cfg),
+  [ncmd |-> r.ncmd, req |-> req, dep |-> DepPairsOf(r),
    kind |-> [k \in (1..r.ncmd) \X req |-> KindOf(r, k)], fou |-> r.fou,
    mode |-> IF IsGraph(r) THEN "graph" ELSE "serial",
    gidx |-> [c \in 1..r.ncmd |-> [t \in req |->
@@ -70,17 +76,17 @@ Fold(pl, useG, evs) == FoldLeft(LAMBDA a, e : Step(pl, useG, a, e), [st |-> St0,
 \* the plan as far as it can be known without a usable result document
 BasicPlanOf(r) ==
   LET req == Req(r) IN
-  [ncmd |-> r.ncmd, req |-> req, dep |-> DepPairs(r.cfg),
+  [ncmd |-> r.ncmd, req |-> req, dep |-> DepPairsOf(r),
    kind |-> [k \in (1..r.ncmd) \X req |-> KindOf(r, k)], fou |-> r.fou,
    mode |-> IF IsGraph(r) THEN "graph" ELSE "serial"]
 
 \* the set of reasons for which the specification cannot explain the recorded run ({} = accepted)
 RunWhys(r) ==
   LET ds == DocShapeWhy(r)
-      a  == DepAdj(r.cfg)
+      a  == DepAdjOf(r)
       V  == IF r.mode = "targets_deps" THEN Closure(a, RangeOf(r.named)) ELSE TPaths(r.cfg)
   IN
-  IF r.doc.ok /\ r.mode # "targets" /\ Cyclic(a, V) THEN {"C09:run executed a cyclic configuration"}
+  IF r.doc.ok /\ r.mode # "targets" /\ ~Trusting(r) /\ Cyclic(a, V) THEN {"C09:run executed a cyclic configuration"}
   ELSE IF ds # ""
   THEN LET bp  == BasicPlanOf(r)
            acc == Fold(bp, FALSE, r.events)
